@@ -110,7 +110,7 @@ def obligations(tier, seed=0):
     obs.sort(key=lambda o: 0 if o[0].endswith('mpi_from_str') else 1)
     # directed-rounding consistency of the special-value branches interval atan2/arg/log rely on (y = -inf must mirror the mode)
     from checks.c13 import pi_special_grid
-    obs += pi_special_grid('fc')
+    obs += pi_special_grid('fc', tier == 'thorough')
     # directed rounding of the kernels behind iv.exp / iv.log / iv.atan where the exact value is a representable point plus or
     # minus an infinitesimal (the perturbation shortcuts and the boundary to the series path)
     FE = 'checks.fam_elem:'
